@@ -18,13 +18,22 @@ reading `QkCall.op` / `CqOp.op` / `SyGate.op`, validated numerically by the harn
 Proved here for ALL gate lists / circuits (induction over the exporter loop):
 * `qiskit_translation`, `cirq_translation`, `sympy_translation` – for every quirk setting, whenever
   the exporter returns, the export reads as the circuit (nop gates dropped);
-* `qasm_text_shape`, `qasm_roundtrip` – the emitted declaration is read back as (name, formals,
-  one line per non-nop gate) under the decidable `qasmReadable`;
-* `qasm_formals_full` – repaired exporter: exactly one formal per qubit, in index order;
-* `C13_partial` – the conjunction of the above, for every quirk setting (code as it is and
-  repaired); its doc comment names what is missing with respect to `C13_statement`;
-* `…_witness` – concrete inputs on which the model of the code as it is violates the property
-  (one per open finding, by `decide`).
+* `qiskit_total`, `cirq_total`, `sympy_total`, `qasm_total` – the repaired exporters do return on
+  every well-formed circuit over their exportable gate set;
+* `qasm_text_shape`, `qasm_roundtrip`, `qasm_body_lines` – the emitted declaration is read back as
+  (name, formals, one line per non-nop gate) under the decidable `qasmReadable`;
+* `qasm_formals_full`, `qasm_wire_position` – one formal per qubit, in index order;
+* `qasm_name_reading`, `qasm_resolves_q`, `qasm_resolves` – every printed gate name is read back as
+  the class's base gate / number of controls, and the read-back declaration applies exactly the
+  circuit's non-nop gates on the positions of their qubits;
+* `qasm_wellNamed_readable` – `qasmReadable` and distinct formals follow from the decidable
+  `wellNamed` (a condition on the circuit's names only) and `paramsPlain`;
+* `qasm_asis_resolves` – all of the QASM part for the code as it is (only `{p:.2f}` unrepaired);
+* `C13_full : C13_statement` – the whole statement for the repaired model;
+* `C13_partial` – the conditional claims for every quirk setting;
+* `…_witness` – concrete inputs (by `decide`): one per listed defect (three of them repaired in
+  the code since), `qasm_unknown_inner_witness` (why the gate-set condition is needed) and
+  `qasm_fallback_clash_witness` (why `wellNamed` excludes a name equal to a fallback `q<i>`).
 -/
 namespace QV.C13
 open QV QV.Export
@@ -35,7 +44,18 @@ def circWF (fv : FloatOf) (n : Nat) (gs : List AGate) : Prop := ∀ g ∈ gs, ga
 
 /-- The property, for the model with every listed defect repaired (`Quirks.none`): each exporter
 succeeds on its exportable gate set and its output reads as the circuit's non-nop gates; the QASM
-declaration has one formal per qubit in index order and is read back line by line. -/
+declaration has one formal per qubit in index order and – for a circuit whose names are
+`wellNamed` (identifier-shaped, distinct, no clash with a fallback name `q<i>`), whose parameter
+literals are single tokens and whose gates are (controlled) library gates – both versions are
+emitted, the circuit-mode text is header ++ declaration ++ call on `q[0..n-1]`, and the
+declaration is read back as the circuit's name, distinct formals and exactly the circuit's
+operations on the positions of its qubits.
+
+(The first version of this statement had `qasmReadable … = true → (qasmFormals …).Nodup →` as
+hypotheses of the last part and no condition on the gate set; that version is refuted by
+`qasm_unknown_inner_witness`: an `MCtrl` of a gate that is not one of the library's has a line
+`cc<name>` without a reading.  `qasmExportable` is the missing domain condition; `wellNamed` and
+`paramsPlain` replace the two conditions on the output by conditions on the input.) -/
 def C13_statement : Prop :=
   ∀ (fv : FloatOf) (c : Circ), circWF fv c.numQubits c.gates →
     (∀ gm, (∀ g ∈ c.gates, qiskitExportable g.cls = true) →
@@ -47,9 +67,13 @@ def C13_statement : Prop :=
     ((∀ g ∈ c.gates, sympyExportable g.cls = true) →
       ∃ fs, exportSympy c.gates = .ok fs ∧ fs.filterMap SyGate.op = c.gates.filterMap gateOp) ∧
     (qasmFormals Quirks.none c = (List.range c.numQubits).map (nameOfIndex c.qmap)) ∧
-    (qasmReadable Quirks.none fv c = true → (qasmFormals Quirks.none c).Nodup →
-      ∃ text d ops, exportQasm Quirks.none fv 3 true c = .ok text ∧ parseDecl text = some d ∧
-        d.formals = qasmFormals Quirks.none c ∧ declOps d = some ops ∧
+    (wellNamed c = true → paramsPlain c.gates = true →
+      (∀ g ∈ c.gates, qasmExportable g.cls = true) →
+      ∀ ver, ∃ text d ops, exportQasm Quirks.none fv ver true c = .ok text ∧
+        exportQasm Quirks.none fv ver false c =
+          .ok (qasmHeader ver c.numQubits ++ text ++ callLine c.name c.numQubits) ∧
+        parseDecl text = some d ∧ d.name = c.name ∧
+        d.formals = qasmFormals Quirks.none c ∧ d.formals.Nodup ∧ declOps d = some ops ∧
         ops = c.gates.filterMap gateTOp)
 
 /-! ## gate-by-gate translation: same gates, same order, same wire indices, nops dropped -/
@@ -152,14 +176,141 @@ example : qasmReadable Quirks.none (fun _ => none)
     { name := "f".toList, numQubits := 3, qmap := [("a".toList, 0), ("b".toList, 1), ("c".toList, 0), ("r".toList, 2)],
       gates := [⟨.H, [0], .none, 0⟩, ⟨.MCX 2, [0, 1, 2], .none, 0⟩, ⟨.Barrier, [], .none, 0⟩] } = true := by decide
 
-/-- What is proved of `C13_statement` (for every quirk setting `q`, so in particular for the code
-as it is and for the repaired code): *if* an exporter returns, its output reads as the circuit;
-the QASM declaration is read back line by line; the repaired exporter's formals are one per qubit
-in index order and resolve to their own position.
-Missing with respect to `C13_statement`: (1) that each exporter does return on its exportable
-gate set (`∃ calls, … = .ok calls`), (2) that the read-back lines resolve to the circuit's
-operations (`declOps d = some (gates.filterMap gateTOp)`), (3) the in-order/one-name-per-qubit
-case of the *unrepaired* formals.  These three are covered by the correspondence only. -/
+/-! ## (a) each repaired exporter returns on its exportable gate set -/
+
+/-- qiskit, both modes: on a well-formed circuit over `qiskitExportable` gates the repaired
+exporter returns, and what it returns reads as the circuit -/
+theorem qiskit_total (fv : FloatOf) (gm : Bool) (n : Nat) (gs : List AGate) (hwf : circWF fv n gs)
+    (he : ∀ g ∈ gs, qiskitExportable g.cls = true) :
+    ∃ calls, exportQiskit Quirks.none fv gm gs = .ok calls ∧
+      calls.filterMap QkCall.op = gs.filterMap gateOp := by
+  obtain ⟨calls, h⟩ := runSteps_total (qiskitStep Quirks.none fv gm) gs
+    (fun g hg m => qiskitStep_total fv gm n g (hwf g hg) (he g hg) m)
+  exact ⟨calls, h, qiskit_translation Quirks.none fv gm n gs calls hwf h⟩
+
+/-- cirq: same, on `cirqExportable` gates (barriers and nop gates are skipped) -/
+theorem cirq_total (fv : FloatOf) (n : Nat) (gs : List AGate) (hwf : circWF fv n gs)
+    (he : ∀ g ∈ gs, cirqExportable g.cls = true) :
+    ∃ ops, exportCirq Quirks.none gs = .ok ops ∧ ops.filterMap CqOp.op = gs.filterMap gateOp := by
+  obtain ⟨ops, h⟩ := runSteps_total (cirqStep Quirks.none) gs
+    (fun g hg m => cirqStep_total fv n g (hwf g hg) (he g hg) m)
+  exact ⟨ops, h, cirq_translation Quirks.none fv n gs ops hwf h⟩
+
+/-- sympy: same, on `sympyExportable` gates (X, H, CX, SWAP, CCX, MCX(k ≥ 1), nops) -/
+theorem sympy_total (fv : FloatOf) (n : Nat) (gs : List AGate) (hwf : circWF fv n gs)
+    (he : ∀ g ∈ gs, sympyExportable g.cls = true) :
+    ∃ fs, exportSympy gs = .ok fs ∧ fs.filterMap SyGate.op = gs.filterMap gateOp := by
+  obtain ⟨fs, h⟩ := runSteps_total sympyStep gs
+    (fun g hg m => sympyStep_total fv n g (hwf g hg) (he g hg) m)
+  exact ⟨fs, h, sympy_translation fv n gs fs hwf h⟩
+
+/-- QASM, both versions and modes: the exporter with repaired formals (`QasmRepaired q`: the
+fully repaired model and the code as it is, which still prints `{p:.2f}`) returns on every
+well-formed circuit over `qasmExportable` gates, whatever the names -/
+theorem qasm_total (q : Quirks) (hq : QasmRepaired q) (fv : FloatOf) (ver : Nat) (gm : Bool) (c : Circ)
+    (hwf : circWF fv c.numQubits c.gates) (he : ∀ g ∈ c.gates, qasmExportable g.cls = true) :
+    ∃ text, exportQasm q fv ver gm c = .ok text := by
+  unfold exportQasm
+  rw [qasmBody_eq hq fv c hwf he]
+  cases gm <;> simp
+
+/-! ## (b) the read-back lines resolve to the circuit's operations -/
+
+/-- every gate name the exporter prints is read back as the class's base gate and number of
+controls (`c…c<base>`; every class shape, any `n`, any library inner gate) -/
+theorem qasm_name_reading (cls : GClass) (bk : Base × Nat) (h : kind cls = some bk) :
+    kindOfQasm (qasmName cls) = some bk := kindOfQasm_qasmName h
+
+/-- exporter with repaired formals (the fully repaired model *and* the code as it is), readable
+text, distinct formals, (controlled) library gates: the declaration that is read back applies
+exactly the circuit's non-nop gates, in order, each on the formal positions = qubit indices of
+its wires; the parameter text is what `q` prints (`gateTOpQ`: the literal, or `{p:.2f}` of its
+value under `qasmParam2f`) -/
+theorem qasm_resolves_q (q : Quirks) (hq : QasmRepaired q) (fv : FloatOf) (ver : Nat) (c : Circ)
+    (hwf : circWF fv c.numQubits c.gates) (he : ∀ g ∈ c.gates, qasmExportable g.cls = true)
+    (hr : qasmReadable q fv c = true) (hnd : (qasmFormals q c).Nodup) :
+    ∃ text d, exportQasm q fv ver true c = .ok text ∧ parseDecl text = some d ∧
+      d.name = c.name ∧ d.formals = (List.range c.numQubits).map (nameOfIndex c.qmap) ∧
+      declOps d = some (c.gates.filterMap (gateTOpQ q fv)) := by
+  obtain ⟨text, body, h1, h2, h3⟩ := qasm_roundtrip q fv ver c hr
+  refine ⟨text, _, h1, h3, rfl, qasmFormals_repaired hq c, ?_⟩
+  rw [qasm_body_lines q fv c body h2]
+  exact declOps_body hq fv c hwf he hnd
+
+/-- fully repaired exporter: the parameter read back is the literal of the gate's parameter -/
+theorem qasm_resolves (fv : FloatOf) (ver : Nat) (c : Circ) (hwf : circWF fv c.numQubits c.gates)
+    (he : ∀ g ∈ c.gates, qasmExportable g.cls = true)
+    (hr : qasmReadable Quirks.none fv c = true) (hnd : (qasmFormals Quirks.none c).Nodup) :
+    ∃ text d, exportQasm Quirks.none fv ver true c = .ok text ∧ parseDecl text = some d ∧
+      d.name = c.name ∧ d.formals = qasmFormals Quirks.none c ∧
+      declOps d = some (c.gates.filterMap gateTOp) := by
+  obtain ⟨text, d, h1, h2, h3, h4, h5⟩ :=
+    qasm_resolves_q Quirks.none qasmRepaired_none fv ver c hwf he hr hnd
+  refine ⟨text, d, h1, h2, h3, h4.trans (qasmFormals_repaired qasmRepaired_none c).symm, ?_⟩
+  rw [h5]
+  congr 1
+  exact filterMap_congr_mem _ (fun g _ => gateTOpQ_none fv g)
+
+/-! ## (c) readability from conditions on the names -/
+
+/-- `wellNamed` (circuit name and qubit names identifier-shaped, names distinct, no qubit name
+equal to the fallback name `q<i>` of an unnamed qubit) and single-token parameter literals give
+the two conditions on the output used above: every emitted token is readable and the formals are
+pairwise distinct.  Aliased and dotted names of compiled functions are allowed.  Holds for the
+fully repaired model and for the code as it is (`{p:.2f}` prints sign, digits and a point). -/
+theorem qasm_wellNamed_readable (q : Quirks) (hq : QasmRepaired q) (fv : FloatOf) (c : Circ)
+    (hwf : circWF fv c.numQubits c.gates)
+    (he : ∀ g ∈ c.gates, qasmExportable g.cls = true)
+    (hp : paramsPlain c.gates = true) (hn : wellNamed c = true) :
+    qasmReadable q fv c = true ∧ (qasmFormals q c).Nodup :=
+  readable_of_wellNamed hq fv c hwf he hp hn
+
+/-- the code as it is (only `C13-qasm-param-2f` unrepaired), from conditions on the input alone:
+both versions of the gate declaration are emitted and read back as the circuit's name, one
+formal per qubit in index order, pairwise distinct, and exactly the circuit's non-nop gates on
+the positions of their qubits – only the parameter is the two-decimal rendering of its value -/
+theorem qasm_asis_resolves (fv : FloatOf) (ver : Nat) (c : Circ) (hwf : circWF fv c.numQubits c.gates)
+    (he : ∀ g ∈ c.gates, qasmExportable g.cls = true)
+    (hp : paramsPlain c.gates = true) (hn : wellNamed c = true) :
+    ∃ text d, exportQasm { qasmParam2f := true } fv ver true c = .ok text ∧ parseDecl text = some d ∧
+      d.name = c.name ∧ d.formals = (List.range c.numQubits).map (nameOfIndex c.qmap) ∧
+      d.formals.Nodup ∧
+      declOps d = some (c.gates.filterMap (gateTOpQ { qasmParam2f := true } fv)) := by
+  have hq : QasmRepaired { qasmParam2f := true } := ⟨rfl, rfl⟩
+  obtain ⟨hr, hnd⟩ := qasm_wellNamed_readable _ hq fv c hwf he hp hn
+  obtain ⟨text, d, h1, h2, h3, h4, h5⟩ := qasm_resolves_q _ hq fv ver c hwf he hr hnd
+  refine ⟨text, d, h1, h2, h3, h4, ?_, h5⟩
+  rw [h4, ← qasmFormals_repaired hq c]
+  exact hnd
+
+/-- the hypotheses are satisfiable by the name map of a compiled `c = a` (aliased: `a` and `c`
+both name qubit 0), dotted names, an unnamed qubit, MCX, a parameter and a barrier -/
+example : wellNamed
+    { name := "f".toList, numQubits := 4,
+      qmap := [("a".toList, 0), ("b.0".toList, 1), ("c".toList, 0), ("_ret".toList, 2)],
+      gates := [] } = true := by decide
+
+example : paramsPlain [⟨.H, [0], .none, 0⟩, ⟨.MCX 2, [0, 1, 2], .none, 0⟩, ⟨.Barrier, [], .none, 0⟩,
+    ⟨.CP, [3, 0], .lit "0.7853981633974483", 0⟩] = true := by decide
+
+/-! ## the full statement -/
+
+/-- `C13_statement` holds (model of the exporters with every listed defect repaired). -/
+theorem C13_full : C13_statement := by
+  intro fv c hwf
+  refine ⟨fun gm he => qiskit_total fv gm _ _ hwf he, fun he => cirq_total fv _ _ hwf he,
+    fun he => sympy_total fv _ _ hwf he, (qasm_formals_full c).1, ?_⟩
+  intro hn hp he ver
+  obtain ⟨hr, hnd⟩ := qasm_wellNamed_readable _ qasmRepaired_none fv c hwf he hp hn
+  obtain ⟨text, d, h1, h2, h3, h4, h5⟩ := qasm_resolves fv ver c hwf he hr hnd
+  exact ⟨text, d, _, h1, (qasm_text_shape Quirks.none fv ver c text h1).1, h2, h3, h4, h4 ▸ hnd, h5, rfl⟩
+
+/-- The conditional part, for *every* quirk setting `q` (so in particular for the code as it is
+and for every partially repaired variant): *if* an exporter returns, its output reads as the
+circuit; the QASM declaration is read back line by line; the repaired exporter's formals are one
+per qubit in index order.  `C13_full` adds, for the repaired model, that the exporters do return
+and that the lines resolve to the circuit's operations; `qasm_asis_resolves` does the same for
+the QASM exporter as it is. -/
 theorem C13_partial (q : Quirks) (fv : FloatOf) (c : Circ) (hwf : circWF fv c.numQubits c.gates) :
     (∀ gm calls, exportQiskit q fv gm c.gates = .ok calls →
       calls.filterMap QkCall.op = c.gates.filterMap gateOp) ∧
@@ -216,5 +367,23 @@ theorem cirq_barrier_witness :
     (exportCirq { cirqNopRaises := true } gs).toOption = none ∧
     (exportCirq Quirks.none gs).toOption = some [.named ['X'] [0], .named ['C', 'N', 'O', 'T'] [0, 1]] := by
   decide
+
+/-- why `C13_statement` needs `qasmExportable`: `MCtrl(g, 2)` for a gate `g` that is not one of the
+library's nine is accepted by `QCircuit.append`, the text is readable and the formals distinct, but
+the line `ccfoo a b c` has no reading – and the circuit entry itself denotes no operation -/
+theorem qasm_unknown_inner_witness :
+    let c : Circ := ⟨['g'], 3, [(['a'], 0), (['b'], 1), (['c'], 2)], [⟨.MCtrl "FOO" 2, [0, 1, 2], .none, 0⟩]⟩
+    gateWF (fun _ => none) 3 ⟨.MCtrl "FOO" 2, [0, 1, 2], .none, 0⟩ = true ∧
+    qasmReadable Quirks.none (fun _ => none) c = true ∧ wellNamed c = true ∧
+    qasmExportable (.MCtrl "FOO" 2) = false ∧
+    (match exportQasm Quirks.none (fun _ => none) 3 true c with
+      | .ok t => (parseDecl t).bind declOps
+      | .error _ => none) = none := by decide
+
+/-- why `wellNamed` asks that no qubit is called like the fallback name of an unnamed one: with
+`{"q1": 0}` on two qubits the repaired exporter declares `gate g q1 q1` -/
+theorem qasm_fallback_clash_witness :
+    let c : Circ := ⟨['g'], 2, [(['q', '1'], 0)], [⟨.CX, [0, 1], .none, 0⟩]⟩
+    qasmFormals Quirks.none c = [['q', '1'], ['q', '1']] ∧ wellNamed c = false := by decide
 
 end QV.C13
